@@ -123,6 +123,7 @@ type Exec struct {
 	lazyCaptures bool
 	boxedPtrs   map[string]PtrVal
 	boxedVals   map[string]Value
+	altRecv     *Cell // interface value holding the value receiver (body verified against an interface contract)
 }
 
 const maxPaths = 4096
@@ -298,6 +299,7 @@ func (prog *Program) verifyFunc(tg target) (res *FuncResult) {
 		merged := *tg.alt
 		if c != nil {
 			merged.Loops, merged.WrapOK, merged.Alloc, merged.Cases = c.Loops, c.WrapOK, c.Alloc, c.Cases
+			merged.Lets = append(append([]LetDef{}, merged.Lets...), c.Lets...)
 			merged.Anys = append(append([]binder{}, merged.Anys...), c.Anys...)
 			merged.SafetyTags = c.SafetyTags
 		}
@@ -370,7 +372,24 @@ func (e *Exec) run() {
 		return c
 	}
 	if r := sig.Recv(); r != nil {
-		bind(r, "recv", true)
+		rc := bind(r, "recv", true)
+		if e.altName != "" {
+			if _, isPtr := r.Type().Underlying().(*types.Pointer); isPtr {
+				// the interface value holds this pointer: its dynamic type is the receiver's type
+				rt := asTerm(st.store[rc])
+				st.assume(mkImplies(mkNe(rt, tZero), mkEq(dynType(rt), typeIdTerm(r.Type()))))
+			}
+			if _, isPtr := r.Type().Underlying().(*types.Pointer); !isPtr {
+				// value receiver verified against an interface contract: `recv` there is the interface
+				// value holding a copy of the receiver
+				switch reprOf(r.Type()) {
+				case rStruct, rSlice:
+					bc := e.newCell("recv$boxed", types.NewInterfaceType(nil, nil))
+					st.store[bc] = e.box(st, st.store[rc], types.NewInterfaceType(nil, nil))
+					e.altRecv = bc
+				}
+			}
+		}
 	}
 	for i := 0; i < sig.Params().Len(); i++ {
 		bind(sig.Params().At(i), fmt.Sprintf("p%d", i), false)
@@ -595,6 +614,9 @@ func (e *Exec) paramNames(sig *types.Signature, c *Contract) map[string]*Cell {
 		}
 		names[n] = e.cellFor(r)
 		names["recv"] = e.cellFor(r)
+		if e.altRecv != nil && c != nil && c == e.contract {
+			names["recv"] = e.altRecv
+		}
 	}
 	for i := 0; i < sig.Params().Len(); i++ {
 		p := sig.Params().At(i)
@@ -606,6 +628,11 @@ func (e *Exec) paramNames(sig *types.Signature, c *Contract) map[string]*Cell {
 			n = fmt.Sprintf("p%d", i)
 		}
 		names[n] = e.cellFor(p)
+		if pn := p.Name(); pn != "" && pn != "_" {
+			if _, taken := names[pn]; !taken {
+				names[pn] = e.cellFor(p) // the declaration's own name stays usable (merged proof hints)
+			}
+		}
 	}
 	return names
 }
